@@ -518,14 +518,18 @@ pub mod chrono {
         #[verifier::external_body]
         pub fn now() -> DateTime { unimplemented!() }
     }
+    /// the local hour of day at the moment the policy is evaluated: an input the contracts quantify over (one evaluation reads it once)
+    pub uninterp spec fn clock_hour() -> u32;
     impl DateTime {
         #[verifier::external_body]
         pub fn time(&self) -> NaiveTime { unimplemented!() }
+        /// chrono::Timelike for DateTime<Local>
+        #[verifier::external_body]
+        pub fn hour(&self) -> (r: u32) ensures r == clock_hour(), r < 24 { unimplemented!() }
     }
     impl NaiveTime {
-        pub uninterp spec fn spec_hour(&self) -> u32;
         #[verifier::external_body]
-        pub fn hour(&self) -> (r: u32) ensures r == self.spec_hour(), r < 24 { unimplemented!() }
+        pub fn hour(&self) -> (r: u32) ensures r == clock_hour(), r < 24 { unimplemented!() }
     }
 }
 
